@@ -422,79 +422,6 @@ def rule_every_stale_entry_rebuilt(ctx, rid, rr, rid_required=None):
     return None
 
 
-# ------------------------------------------------------------------------------------------------ T5
-def rule_ancestor_closure(ctx, rid, rr):
-    m = ctx.model
-    f = m.one_func("all_ancestors", "CLOSURE")
-    gp, sp = f.pos_params[0], f.pos_params[1]
-    whiles = [n for n in f.own_nodes() if isinstance(n, ast.While)]
-    ok = len(whiles) == 1
-    ctx.ob(rid, f"{f.short}/worklist", ok, loc(f), "one worklist loop")
-    if not ok:
-        return
-    w = whiles[0]
-    frontier = norm(w.test)
-    fb = [b for b in f.bindings.get(frontier, []) if b[0] == "assign"]
-    ok = len(fb) == 1 and norm(fb[0][1]) in (f"list({sp})", f"[*{sp}]")
-    ctx.ob(rid, f"{f.short}/seeded-with-all-sources", ok, loc(f), "worklist seeded with all required nodes" if ok else
-           "worklist is not seeded with all the given nodes")
-    ext = [c for c in ast.walk(w) if isinstance(c, ast.Call) and isinstance(c.func, ast.Attribute) and c.func.attr in ("extend", "append")
-           and norm(c.func.value) == frontier]
-    ok = len(ext) == 1 and ext[0].args and isinstance(ext[0].args[0], ast.Call) and \
-        E.classify_neighbor_iter(m, f, ext[0].args[0], "pred") is not None and gp in names_in(ext[0].args[0])
-    ctx.ob(rid, f"{f.short}/expands-predecessors", ok, loc(f), "expansion follows predecessors of the popped node" if ok else
-           "closure does not expand along predecessors (e.g. follows successors): needed ancestors are pruned", norm(ext[0]) if ext else "")
-    rets = [n for n in f.own_nodes() if isinstance(n, ast.Return) and n.value is not None]
-    visited = norm(rets[0].value) if rets else None
-    adds = [c for c in ast.walk(w) if isinstance(c, ast.Call) and isinstance(c.func, ast.Attribute) and c.func.attr == "add" and norm(c.func.value) == visited]
-    # the popped element
-    pops = [n for n in w.body if isinstance(n, ast.Assign) and isinstance(n.value, ast.Call) and isinstance(n.value.func, ast.Attribute)
-            and n.value.func.attr in ("pop", "popleft") and norm(n.value.func.value) == frontier and isinstance(n.targets[0], ast.Name)]
-    popped = pops[0].targets[0].id if len(pops) == 1 and w.body and w.body[0] is pops[0] else None
-
-    def only_not_visited(st):
-        """the statement runs exactly when the popped node has not been visited yet (either spelling of the guard)"""
-        conds = E.path_condition(f.module, st, w)
-        return bool(conds) and all(isinstance(t, ast.Compare) and len(t.ops) == 1 and isinstance(t.ops[0], ast.In) and is_name(t.left, popped)
-                                   and norm(t.comparators[0]) == visited and not pol for t, pol in conds)
-    ok = popped is not None and len(adds) == 1 and adds[0].args and is_name(adds[0].args[0], popped) and only_not_visited(stmt_of(f.module, adds[0])) \
-        and len(ext) == 1 and only_not_visited(stmt_of(f.module, ext[0]))
-    ctx.ob(rid, f"{f.short}/visited-idiom", ok, loc(f), "pop; skip if visited; mark visited; expand (terminates, complete)" if ok else
-           "visited-set idiom changed: closure may be incomplete or not terminate")
-    # prune_plan: seeds = required + output; removes exactly the complement
-    pp = m.one_func("prune_plan", "PRUNE")
-    on = [p for p in pp.params if "output" in p][0]
-    rq = [p for p in pp.params if "required" in p][0]
-    cl = [c for c in pp.own_calls() if f in m.callee_funcs(pp, c)]
-    seeds = norm(cl[0].args[1]) if len(cl) == 1 and len(cl[0].args) == 2 else None
-    # the seed collection is the required-nodes parameter itself or a set built from it (and nothing else)
-    seed_ok = seeds == rq
-    if seeds is not None and not seed_ok:
-        sb = [b for b in pp.bindings.get(seeds, []) if b[0] == "assign"]
-        seed_ok = len(sb) == 1 and norm(sb[0][1]) in (f"set({rq})", f"{{*{rq}}}", f"list({rq})")
-    elif seed_ok:
-        sb = [b for b in pp.bindings.get(rq, []) if b[0] == "assign"]
-        seed_ok = all(norm(b[1]) in (f"set({rq})", f"{{*{rq}}}") or (isinstance(b[1], ast.Call) and f in m.callee_funcs(pp, b[1])) for b in sb)
-    adds = [c for c in pp.own_calls() if isinstance(c.func, ast.Attribute) and c.func.attr == "add" and norm(c.func.value) == seeds and c.args and is_name(c.args[0], on)]
-    ok = len(adds) == 1 and E.cond_set(E.path_condition(pp.module, stmt_of(pp.module, adds[0]), pp.node), on)
-    ctx.ob(rid, f"{pp.short}/output-is-required", ok, loc(pp), "the output node is added to the seeds when present" if ok else
-           "the output node is not among the closure seeds: its ancestors can be pruned")
-    ok = len(cl) == 1 and seed_ok
-    ctx.ob(rid, f"{pp.short}/closure-of-required", ok, loc(pp), "closure computed from the required set" if ok else "closure is not computed from the required set")
-    if cl:
-        a_ok = adds and adds[0].lineno < cl[0].lineno
-        ctx.ob(rid, f"{pp.short}/output-before-closure", bool(a_ok), loc(pp), "output added before the closure is computed" if a_ok else
-               "output added after the closure was computed")
-    # literal pruning loop skips the output node
-    loops = [n for n in pp.own_nodes() if isinstance(n, ast.For) and any(isinstance(c, ast.Call) and any(g.name.startswith("_prune_literal") for g in m.callee_funcs(pp, c)) for c in ast.walk(n) if c in pp.own_calls())]
-    if loops:
-        from ..astq import expand_locals
-        it = expand_locals(pp, loops[0].iter)
-        while isinstance(it, ast.Call) and isinstance(it.func, ast.Name) and it.func.id in ("list", "tuple", "sorted") and len(it.args) == 1:
-            it = it.args[0]
-        ok = isinstance(it, (ast.ListComp, ast.GeneratorExp, ast.SetComp)) and any(f"!= {on}" in norm(c) or f"is not {on}" in norm(c) for g in it.generators for c in g.ifs)
-        ctx.ob(rid, f"{pp.short}/output-literal-kept", ok, loc(pp, loops[0]), "the output literal is never pruned as trivial" if ok else
-               "an output literal can be pruned as trivial")
 
 
 # ------------------------------------------------------------------------------------------------ T6
